@@ -13,7 +13,6 @@
 package h
 
 import (
-	"syscall"
 	"bufio"
 	"crypto/sha256"
 	"encoding/hex"
@@ -26,6 +25,7 @@ import (
 	"strconv"
 	"strings"
 	"sync"
+	"syscall"
 	"testing"
 	"time"
 
